@@ -8,6 +8,7 @@ import (
 // GenScenario draws one scenario of the given family from rng.
 // Families mirror the exhaustive TLC configurations (MCStepSched.tla):
 //
+//	limit   : wide DAGs, maxActiveRuns > 0, retries (C15)
 //	order   : no stop, no handlers      (C01 C02 C03 C15)
 //	outcome : handlers, with/without stop (C04)
 //	stop    : stop request (+ kill escalation), obeying / ignoring processes, repeat (C05)
@@ -61,6 +62,17 @@ func GenScenario(family string, id int, rng *rand.Rand) Scenario {
 		}
 	}
 	switch family {
+	case "limit":
+		// wide DAGs under a concurrency limit, with retries (C15)
+		sc.MaxActive = 1 + rng.Intn(n+1)
+		for i := 0; i < n; i++ {
+			if rng.Intn(2) == 0 {
+				sc.Deps[i] = []int{}
+			}
+			sc.RLimit[i] = []int{0, 1, 1, 2}[rng.Intn(4)]
+			sc.FailK[i] = []int{0, 1, 2, 3}[rng.Intn(4)]
+			sc.ContF[i] = rng.Intn(2) == 0
+		}
 	case "order":
 		if rng.Intn(4) == 0 {
 			withHandlers()
